@@ -157,6 +157,74 @@ Fixpoint mrun (cfg : mconfig) (st : mstate) (ops : list mop) : mstate * list mre
       (st2, match o with Some r => r :: rs | None => rs end)
   end.
 
+(* ---- a colony: several membranes, antibody transfer ------------------------ *)
+
+(* Each Membrane object owns its state; export_antibodies() returns the values
+   of _learned_patterns (dict order) and import_antibodies() stores them under
+   their pattern text.  ThreatSignature objects are never mutated by the code,
+   so passing the very objects between membranes is passing VALUES: nothing
+   one membrane does later can change what another one holds.  (That is what
+   c10_membranes_isolated states; the harness passes the real objects and its
+   monitor keeps per-membrane values of its own, so aliasing would show.)
+   All membranes read the same clock: STickAll. *)
+Record member := mkMember { mb_cfg : mconfig; mb_st : mstate }.
+Definition msys := list member.
+
+Fixpoint upd {A : Type} (l : list A) (i : nat) (x : A) : list A :=
+  match l, i with
+  | [], _ => []
+  | _ :: r, O => x :: r
+  | y :: r, S k => y :: upd r k x
+  end.
+
+Inductive sop :=
+  | SOp (i : nat) (op : mop)          (* an operation addressed to membrane i *)
+  | STransfer (src dst : nat)         (* dst.import_antibodies(src.export_antibodies()) *)
+  | STickAll (d : Z).                 (* the shared clock advances *)
+
+Definition member_step (m : member) (op : mop) : member * option mresult :=
+  let '(st', r) := mstep (mb_cfg m) (mb_st m) op in (mkMember (mb_cfg m) st', r).
+
+Definition sys_step (sys : msys) (o : sop) : msys * option (nat * mresult) :=
+  match o with
+  | SOp i op =>
+      match nth_error sys i with
+      | None => (sys, None)
+      | Some m => let '(m', r) := member_step m op in
+                  (upd sys i m', match r with Some x => Some (i, x) | None => None end)
+      end
+  | STransfer s d =>
+      match nth_error sys s, nth_error sys d with
+      | Some ms, Some md => (upd sys d (fst (member_step md (OImport (m_learned (mb_st ms))))), None)
+      | _, _ => (sys, None)
+      end
+  | STickAll dlt => (map (fun m => fst (member_step m (OTick dlt))) sys, None)
+  end.
+
+Fixpoint sys_run (sys : msys) (ops : list sop) : msys * list (nat * mresult) :=
+  match ops with
+  | [] => (sys, [])
+  | o :: rest =>
+      let '(s1, r) := sys_step sys o in
+      let '(s2, rs) := sys_run s1 rest in
+      (s2, match r with Some x => x :: rs | None => rs end)
+  end.
+
+(* does the operation act on (or move the clock of) membrane j? *)
+Definition touches (j : nat) (o : sop) : bool :=
+  match o with
+  | SOp i _ => Nat.eqb i j
+  | STransfer _ d => Nat.eqb d j
+  | STickAll _ => true
+  end.
+(* an operation whose effect on membrane j depends on membrane j alone *)
+Definition local_to (j : nat) (o : sop) : bool :=
+  match o with
+  | SOp i _ => Nat.eqb i j
+  | STransfer _ _ => false
+  | STickAll _ => true
+  end.
+
 (* ---------------------------------------------------------------------- *)
 (* InnateImmunity                                                          *)
 (* ---------------------------------------------------------------------- *)
